@@ -10,5 +10,6 @@ import Dippy.Props.C07
 #print axioms Dippy.C07.deny_message
 #print axioms Dippy.C07.no_rule_builtin
 #print axioms Dippy.C07.env_prefix_transparent
+#print axioms Dippy.C07.rule_through_env_prefix
 #print axioms Dippy.C07.wrapper_transparent
 #print axioms Dippy.C07.rule_through_wrapper
